@@ -294,10 +294,8 @@ def member(o, t) -> bool:
             # iff T admits every 1-character str
             return _admits_str(t[1])
         if isinstance(o, bytes):
-            for e in o:
-                if not member(e, t[1]):
-                    return False
-            return True
+            # bytes is (nominally) a Sequence[int] whatever its length
+            return _admits_int(t[1])
         return False
     if k == "td":
         # TypedDicts are open (PEP 589 structural typing): extra keys do not matter
@@ -317,6 +315,17 @@ def member(o, t) -> bool:
     raise AssertionError(t)
 
 
+def _admits_int(t) -> bool:
+    k = t[0]
+    if k in ("int", "float", "complex", "object"):
+        return True
+    if k == "union":
+        for x in t[1:]:
+            if _admits_int(x):
+                return True
+    return False
+
+
 def _admits_str(t) -> bool:
     k = t[0]
     if k in ("str", "object"):
@@ -333,7 +342,7 @@ def _admits_str(t) -> bool:
 # ----------------------------------------------------------------------------------------
 
 OBJECT_KINDS = ["int", "bool", "str", "none", "float", "tuple0", "tuple1", "tuple2", "tuple_is", "list0", "list1", "list2",
-                "dict0", "dict_a", "dict_ab", "dict_an", "enum", "instA", "instB", "clsA", "clsB", "clsint"]
+                "dict0", "dict_a", "dict_ab", "dict_an", "set1", "fset1", "bytes0", "bytes1", "enum", "instA", "instB", "clsA", "clsB", "clsint"]
 
 
 def make_object(kind: str, oi, oj, s):
@@ -369,6 +378,15 @@ def make_object(kind: str, oi, oj, s):
         return {"a": oi, "b": oj}
     if kind == "dict_an":
         return {"a": None, "b": oi}
+    if kind == "set1":
+        # the element is 0 or 1 (decided by the sign of oi): a real set needs a concrete, hashable element
+        return {0} if oi <= 0 else {1}
+    if kind == "fset1":
+        return frozenset({0}) if oi <= 0 else frozenset({1})
+    if kind == "bytes0":
+        return b""
+    if kind == "bytes1":
+        return b"a"
     if kind == "enum":
         return Color.RED
     if kind == "instA":
@@ -540,7 +558,7 @@ def _compatible_kinds(tb) -> List[str]:
     if k == "object":
         return ["int", "str", "none", "tuple1", "instA"]
     if k == "bytes":
-        return []
+        return ["bytes0", "bytes1"]
     if k == "union":
         res = []
         for x in tb[1:]:
@@ -550,14 +568,18 @@ def _compatible_kinds(tb) -> List[str]:
         return res
     if k in ("list",):
         return ["list0", "list1", "list2"]
-    if k in ("set", "frozenset"):
-        return []
+    if k == "set":
+        return ["set1"]
+    if k == "frozenset":
+        return ["fset1"]
     if k in ("dict", "mapping"):
         return ["dict0", "dict_a", "dict_ab", "dict_an"]
     if k in ("tuple", "vtuple", "pvtuple"):
         return ["tuple0", "tuple1", "tuple2", "tuple_is"]
-    if k in ("seq", "iter"):
-        return ["list0", "list1", "tuple1", "tuple2", "str"]
+    if k == "seq":
+        return ["list0", "list1", "tuple1", "tuple2", "str", "bytes1"]
+    if k == "iter":
+        return ["list0", "list1", "tuple1", "tuple2", "str", "bytes1", "set1", "fset1", "dict_a"]
     if k in ("td", "td2"):
         return ["dict0", "dict_a", "dict_ab", "dict_an"]
     if k in ("minlen", "maxlen"):
